@@ -193,8 +193,18 @@ def work(key):
         res.d["ground_instances"] += 1
         res.d["instances"] -= 1
         ok, detail = _ground_computable(name)
+        res.ob(1)
         if not ok:
             res.candidate("computable", detail, {"gate": name, "values": {}, "clause": "computable"}, sub="computable")
+        else:
+            res.ob(0, 1, "ground-numeric")
+        res.ob(1)
+        bad = _ground_numeric_path(name)
+        if bad:
+            what, pv, d = bad[0]
+            res.candidate(what, f"{name}{pv}: {what} (delta {d:.3g})", {"gate": name, "values": {}, "clause": what}, sub=what)
+        else:
+            res.ob(0, 1, "ground-numeric")
     return res.as_dict()
 
 
@@ -206,6 +216,35 @@ def prover_twin(res, build):
 
 def _ground_vals(npar):
     return [0.3 + 0.41 * i for i in range(npar)]
+
+
+GROUND_ANGLE_SETS = [[4.0, 8.0, -7.0], [13.5, -0.125, 6.5], [-9.25, 2.5, 7.1], [7, -13, 2], [0.0, 6.283185307179586, 12.566370614359172]]
+
+
+def _ground_numeric_path(name):
+    """Plain Python numbers as parameters (the branch a symbolic run cannot take): the matrix must equal the
+    symbolic matrix evaluated at the same numbers, be unitary, and obey the group law. Ground instance."""
+    install_numpy_sympy_shim()
+    kind, obj, npar = gate_table()[name]
+    if kind == "const":
+        return []
+    th = syms("th", npar)
+    Msym = obj(*th).matrix
+    bad = []
+    for vs in GROUND_ANGLE_SETS:
+        pv = vs[:npar]
+        M = np.array(obj(*pv).matrix.evalf(), dtype=complex)
+        W = np.array(Msym.subs(dict(zip(th, pv))).evalf(), dtype=complex)
+        if np.abs(M - W).max() > 1e-9:
+            bad.append(("numeric-vs-symbolic", pv, float(np.abs(M - W).max())))
+        if np.abs(M.conj().T @ M - np.eye(M.shape[0])).max() > 1e-9:
+            bad.append(("unitary-numeric", pv, 0.0))
+        if name in GROUP_GATES:
+            a, b = vs[0], vs[1]
+            d = np.array(obj(b).matrix.evalf(), dtype=complex) @ np.array(obj(a).matrix.evalf(), dtype=complex) - np.array(obj(a + b).matrix.evalf(), dtype=complex)
+            if np.abs(d).max() > 1e-9:
+                bad.append(("group-law-numeric", [a, b], float(np.abs(d).max())))
+    return bad
 
 
 def _ground_computable(name):
@@ -301,6 +340,9 @@ def replay(data):
     if clause == "computable":
         ok, detail = _ground_computable(name)
         return (not ok), detail
+    if clause in ("numeric-vs-symbolic", "unitary-numeric", "group-law-numeric"):
+        bad = [b for b in _ground_numeric_path(name) if b[0] == clause]
+        return bool(bad), str(bad[:2])
     if clause in ("group-law",):
         a, b = float(vals.get("a", 0.3)), float(vals.get("b", 0.5))
         d = npm(obj(b)) @ npm(obj(a)) - npm(obj(a + b))
